@@ -16,7 +16,7 @@ RULE = ("twin worlds from the same pre-state: world A evaluates call_batch(kwarg
 ASSUMPTIONS = ["exceptions are compared by class and original message", "stores are compared as sets of (qualified name, argument hash, result type, value, invocation list)"]
 COMPONENTS = {"real": ["call_batch / map_over_range, LocalRunnerBackend.batch_run, runner, storage backends", "fork lifetimes"],
               "stub": ["generated program", "uuid4, clock"]}
-REACH = ["one_shot_iterable_range", "with_warm_elements", "batches", "map_over_range", "raise_first", "with_failing_element", "with_duplicates", "with_prememoized", "empty_batches",
+REACH = ["with_transient_failures", "one_shot_iterable_range", "with_warm_elements", "batches", "map_over_range", "raise_first", "with_failing_element", "with_duplicates", "with_prememoized", "empty_batches",
          "partial_prefix", "restart_before_batch"]
 
 
@@ -25,6 +25,8 @@ def gen_case(seed):
     prog = calltree.gen_tree(rng, n=rng.randrange(1, 6), feats={"p_fail": 0.3, "w_batch": 0.7, "w_map": 0.3})
     if rng.random() < 0.6:
         prog["nodes"][0]["fail_on"] = sorted(set(rng.sample([0, 1, 2, 3], rng.randrange(1, 3))))
+    if rng.random() < 0.35:
+        prog["nodes"][0]["transient"] = sorted(set(rng.sample([0, 1, 2, 3], rng.randrange(1, 3))))
     n = rng.choice([0, 1, 2, 3, 4, 5, 8])
     xs = [rng.randrange(4) for _ in range(n)]
     via = rng.choice(["call_batch", "call_batch", "map_over_range"])
@@ -195,7 +197,24 @@ def execute(case):
         for name, x in A["runs"]:
             if name == rootname:
                 per_x[x] = per_x.get(x, 0) + 1
+        per_x_b = {}
+        for name, x in B["runs"]:
+            if name == rootname:
+                per_x_b[x] = per_x_b.get(x, 0) + 1
+        transient = set(case["prog"]["nodes"][0].get("transient") or [])
+        if transient & set(xs):
+            stats["with_transient_failures"] = 1
+        if transient:
+            # with outcomes that are not to be memoized (also when they propagate from a nested call) the element-wise
+            # world is the reference: every element is evaluated exactly as often as single calls evaluate it
+            for x in sorted(set(per_x) | set(per_x_b)):
+                if per_x.get(x, 0) != per_x_b.get(x, 0):
+                    viol.append(core.violation("non-memoized-element-run-count-differs", feats,
+                                               {"x": x, "batch": per_x.get(x, 0), "single": per_x_b.get(x, 0)}))
+                    break
         for x, c in sorted(per_x.items()):
+            if transient:
+                break
             if c > 1:
                 viol.append(core.violation("element-body-ran-more-than-once", feats, {"x": x, "runs": c}))
                 break
